@@ -113,8 +113,19 @@ func Pick[T any](r *Run, q, t T) T {
 	return q
 }
 
-// Mine tells a sharded worker whether work item i belongs to it.
-func (r *Run) Mine(i int) bool { return r.nshards <= 1 || i%r.nshards == r.shard }
+// Mine tells a sharded worker whether work item i belongs to it.  Once the time budget of the
+// run is used up no further item is taken (the run ends normally with exhaustive:false and
+// the cap recorded), so every enumeration that is sharded through Mine honours the budget.
+func (r *Run) Mine(i int) bool {
+	if r.nshards > 1 && i%r.nshards != r.shard {
+		return false
+	}
+	if r.OutOfTime() {
+		r.Cap("time budget: the enumeration stopped before all of its items were taken")
+		return false
+	}
+	return true
+}
 func (r *Run) IsWorker() bool  { return r.worker }
 func (r *Run) Shard() (int, int) {
 	return r.shard, r.nshards
